@@ -1,5 +1,5 @@
+import Typegen.Basic
 namespace P
-abbrev Str := List Char
 
 /-- one `str::replace(char, &str)` -/
 def replaceCh (c : Char) (r : Str) : Str → Str
